@@ -282,7 +282,7 @@ func init() {
 				cw.add("skip", "skip", "N jsonout random-float-bits", prop)
 			}
 		}
-		for _, str := range []string{"K\xfcche", "bell\a", "del\x7f", "nul\x00byte", "\xff\xfe", "tab\tnew\nline", "quote\"back\\slash", "<html>&", "\U0001F600", "\U000E0001", "\u2028\u2029", "é€"} {
+		for _, str := range []string{"K\xfcche", "bell\a", "del\x7f", "nul\x00byte", "\xff\xfe", "tab\tnew\nline", "quote\"back\\slash", "<html>&", "C:\\temp\\new", "50\\60 Hz", "trailing\\", "\\u0041BC", "\\", "\U0001F600", "\U000E0001", "\u2028\u2029", "é€"} {
 			ms := []rscp.Message{{Tag: rscp.INFO_SERIAL_NUMBER, DataType: rscp.CString, Value: str},
 				{Tag: rscp.BAT_DATA, DataType: rscp.Container, Value: []rscp.Message{{Tag: rscp.BAT_DEVICE_NAME, DataType: rscp.CString, Value: str}}}}
 			plain := plainFrame(ms, false, time.Unix(1, 0).UTC())
